@@ -23,7 +23,7 @@ package ledgerstore
 //           what it answers for EVERY block up to its height;
 //   parent  demands the same answers as the reference gave.
 // thorough additionally kills the observer at every durable write of the
-// recovery itself (second crash) before the clean observation.
+// recovery itself (second crash, three-block histories) before the clean observation.
 //
 // Helpers with the prefix c01 come from C01_crash_test.go (listed under "also").
 
@@ -41,6 +41,7 @@ import (
 	"strings"
 	"testing"
 
+	scom "github.com/ontio/ontology/core/store/common"
 	"github.com/ontio/ontology/core/types"
 	nutils "github.com/ontio/ontology/smartcontract/service/native/utils"
 	"github.com/ontio/ontology/verifshim/vcrash"
@@ -56,7 +57,7 @@ type c02crObs struct {
 	StateDump string            `json:"state_dump"` // sha256 over the sorted state-store dump (accumulated write sets)
 	ByBlock   []string          `json:"by_block"`   // GetEventNotifyByBlock(h) as JSON, h = 0..height
 	ByTx      [][]string        `json:"by_tx"`      // per block h: GetEventNotifyByTx(tx) as JSON for every tx of the stored block
-	EventDump string            `json:"event_dump"` // sha256 over the sorted event-store and cross-chain-store dumps
+	EventDump string            `json:"event_dump"` // sha256 over the sorted event-store (without its current-block marker) and cross-chain-store dumps
 	Notifies  int               `json:"notifies"`   // number of notifications seen through ByTx (non-vacuity)
 }
 
@@ -144,6 +145,11 @@ func c02crObserve(l *vLedger) c02crObs {
 	sort.Slice(ev, func(i, j int) bool { return bytes.Compare(ev[i].K, ev[j].K) < 0 })
 	he := sha256.New()
 	for _, kv := range ev {
+		if len(kv.K) == 2 && kv.K[0] == 'E' && kv.K[1] == byte(scom.SYS_CURRENT_BLOCK) {
+			// the event store's own "current block" marker: written, never read by any query
+			// (EventStore.GetCurrentBlock has no caller) - not an event, so not compared
+			continue
+		}
 		he.Write(kv.K)
 		he.Write([]byte{0})
 		he.Write(kv.V)
@@ -441,7 +447,7 @@ func TestVerif_C02_CrashRestart(t *testing.T) {
 		hists = []string{rc.History}
 	}
 	second := r.Thorough()
-	r.Bound(fmt.Sprintf("%d histories (quick: 5 of 3 blocks with every block kind in every position; thorough: + all 25 two-block histories); 1 crash at every LevelDB write boundary of every block commit; second crash inside the recovery: %v", len(hists), second))
+	r.Bound(fmt.Sprintf("%d histories (quick: 5 of 3 blocks with every block kind in every position; thorough: + all 25 two-block histories); 1 crash at every LevelDB write boundary of every block commit; second crash inside the recovery (at every LevelDB write boundary of the restart, three-block histories only): %v", len(hists), second))
 	nh := len(hists)
 	work := 0
 	for hi, hist := range hists {
@@ -535,7 +541,7 @@ func TestVerif_C02_CrashRestart(t *testing.T) {
 				b, _ := strconv.Atoi(p.Phase[6:])
 				oldH, newH = b-1, b
 			}
-			if (second && !replay) || (replay && rc.Second > 0) {
+			if (second && !replay && hi < 5) || (replay && rc.Second > 0) {
 				c02crSecond(r, t, hbase, dir, refFile, ref, cs, oldH, newH, rc.Second)
 			}
 			if !replay || rc.Second == 0 {
@@ -547,7 +553,7 @@ func TestVerif_C02_CrashRestart(t *testing.T) {
 					}
 					r.Class(c01labelClass(p.Label) + "→height:" + which)
 					if newH > 0 && hist[newH-1] != 'e' {
-						r.Class("crashed-block-has-events→height:" + which)
+						r.Class("crashed-block-has-events:height-" + which)
 					}
 				}
 			}
